@@ -30,14 +30,17 @@ prop('C01',
 prop('C02',
      title='Unix timestamps and UTC date-times correspond one-to-one',
      verus=['datetime'],
+     kani=['vk_dt_from_system_time', 'vk_dt_to_system_time'],
      twin=['datetime'],
-     uncovered=['From<SystemTime>/Into<SystemTime> (std type opaque to both engines; bounded twin only)',
+     uncovered=[
                 'deprecated panicking forms NaiveDateTime::from_timestamp, TimeZone::timestamp / timestamp_millis (unwrap/expect wrappers)'],
      text='Verus proves DateTime::<Utc>::from_timestamp/_millis/_micros/_nanos and timestamp/_millis/_micros/_nanos_opt/_subsec_* on the real text '
           'against day_number - 719163 (floor semantics for sub-second units, construction fails exactly outside the date range or for an invalid '
           'nanosecond field, nanosecond accessor None exactly when the count does not fit i64), over the proved contracts of the date, time and TimeDelta units. Also proved: the zone-generic '
           'provided methods TimeZone::timestamp_opt / timestamp_millis_opt / timestamp_micros / timestamp_nanos on their default bodies (generic in the zone; a scan checks no impl overrides them), '
-          'and the NaiveDateTime forms from_timestamp_opt/_millis/_micros/_nanos (two of which redo the Euclidean split themselves) and timestamp*.')
+          'and the NaiveDateTime forms from_timestamp_opt/_millis/_micros/_nanos (two of which redo the Euclidean split themselves) and timestamp*. '
+          'System clock conversions (Kani, modular): From<SystemTime> hands exactly floor seconds + non-negative nanoseconds to the calendar constructor on both sides of the epoch; '
+          'From<DateTime<Tz>> for SystemTime yields the epoch plus timestamp() seconds plus the full nanosecond field (also inside a leap second, also before 1970) - the calendar side (from_timestamp, timestamp) through its Verus contracts.')
 
 prop('C03',
      title='Adding and subtracting elapsed time is exact or refused, never wrapped',
